@@ -11,7 +11,7 @@ import common as C
 PROP = "C13"
 LEAN_MODULES = ["AcryoVerif.Props.C13"]
 LEAN_SUPPORT = ["AcryoVerif.Model.Frame"]
-KERNELS = ["columnLayout", "fromDataFrameSelectsByName", "dupColumnsRejected", "toFileIsParquet",
+KERNELS = ["writersPassThrough", "columnLayout", "fromDataFrameSelectsByName", "dupColumnsRejected", "toFileIsParquet",
            "fromFileIsParquet"]
 TRUSTED = [
     "Lean 4.33 kernel; axioms propext / Classical.choice / Quot.sound only",
